@@ -112,7 +112,7 @@ pub fn print_js<'a>(
         match &original_source_map.source_map_comment {
             Some(comment) => {
                 debug!("Replacing original sourceMappingUrl comment: {comment}");
-                code.replace(comment.as_str(), "").into()
+                remove_comment_text(code, comment).into()
             }
             _ => code.into(),
         }
@@ -134,6 +134,23 @@ pub fn print_js<'a>(
         )
         .into()
     }
+}
+
+/// Removes the text of the superseded sourceMappingURL comment, and only that: other text of the
+/// program that merely looks like it (string literals, regular expressions) is left alone.
+fn remove_comment_text(code: &str, comment: &str) -> String {
+    for opening in ["//", "/*"] {
+        let needle = format!("{opening}{comment}");
+        if let Some(pos) = code.rfind(needle.as_str()) {
+            let text_start = pos + opening.len();
+            return format!(
+                "{}{}",
+                &code[..text_start],
+                &code[text_start + comment.len()..]
+            );
+        }
+    }
+    code.to_string()
 }
 
 fn default_handler_opts() -> HandlerOpts {
